@@ -2,5 +2,6 @@ package filter
 
 type Filter interface {
 	ApplyFilter(filterStr string, data map[string]any) (map[string]any, error)
+	ApplyFilterValue(filterStr string, data map[string]any) (any, error)
 	FilterInfo() string
 }
